@@ -1,6 +1,7 @@
 """The closed system of engine E1: a real yabgp agent (BGPPeering/FSM/BGP objects from /repo)
 inside the virtual world, the complete event menu, observations and the canonical key
 (DESIGN sections 3-5)."""
+import logging
 import copy
 import struct
 
@@ -19,11 +20,38 @@ DEFAULT_CFG = {
     'four_bytes_as': True, 'route_refresh': True, 'cisco_route_refresh': True,
     'enhanced_route_refresh': True, 'graceful_restart': True, 'cisco_multi_session': True,
     'add_path': None, 'afi_safi': ['ipv4'], 'rib': False, 'md5': None, 'setsockopt_fails': False,
-    'peer_id': 0x0A000002,
+    'peer_id': 0x0A000002, 'debug_log': False,
     'username': 'admin', 'password': 'admin',
 }
 
 EVENT_BUDGET = 200000   # interpreter steps of yabgp code per event (C04/C10/C11 use tighter ones)
+
+
+class _SinkHandler(logging.Handler):
+    """formats every record and throws it away (a standard handler never lets a formatting error reach the caller: nor does this)"""
+    def emit(self, record):
+        try:
+            self.format(record)
+        except Exception:      # noqa
+            pass
+
+
+_SINK = _SinkHandler()
+
+
+def set_debug_logging(on):
+    """the operator's log level is part of the environment: with it at DEBUG, code behind LOG.isEnabledFor / LOG.debug arguments runs"""
+    lg = logging.getLogger()        # (some yabgp modules log to the root logger)
+    if on:
+        logging.disable(logging.NOTSET)
+        lg.setLevel(logging.DEBUG)
+        if _SINK not in lg.handlers:
+            lg.addHandler(_SINK)
+    else:
+        logging.disable(logging.CRITICAL)
+        lg.setLevel(logging.WARNING)
+        if _SINK in lg.handlers:
+            lg.removeHandler(_SINK)
 
 
 class _Clock(object):
@@ -141,6 +169,7 @@ class AgentWorld(object):
         self.cfg = c
         self.budget_limit = budget_limit
         import random
+        set_debug_logging(c['debug_log'])
         random.seed(0)          # the agent does not use randomness today; a change that starts to must not make runs differ
         self.sim = sim.World(local_host=c['local_addr'])
         CLOCK.world = self.sim
